@@ -1,4 +1,288 @@
-/- Driver for C04 (stub: not built yet). -/
+/-
+Driver for C04.  Import-free apart from the model.
+
+  table <cid> <summary>                 kernel-checked per-class summary (see `showSummary`) -> predicted observables
+  seq <tree> <op> <op> …                a history on a parameter tree, one result per op, joined by " ; "
+        ops:  get:T | get:F | set:<k=V|k=V…> | clone | fit | apply | fitted | checknames:<n,n,…>
+  tree syntax   a<id> | e<id>:<cls>:<impl>:<T|F>(<k>=<val>,…) | n[<k>=<val>,…]
+        impl = p | m/<attr>/<store> | x (abstract) | c (custom)
+  keys are `a__b__c`
+-/
+import SkVerif.Model.Params
+import SkVerif.Drv.Parse
 namespace SkVerif.Drv.C04
-def handle (_toks : List String) : String := "bad-op"
+open SkVerif.Params SkVerif.Drv
+
+/-! ## summaries (used by the generated table file and by `table` lines) -/
+
+def showPStatus : PStatus → String
+  | .stored => "S" | .missing => "M" | .unknown => "U"
+def showGStatus : GStatus → String
+  | .absent => "A" | .guarded => "G" | .unguarded => "U"
+def showImplNat : Impl Nat → String
+  | .plain => "p" | .viaMeta a s => s!"m/{a}/{s}" | .abstr => "x" | .custom => "c"
+def commaOr (l : List String) : String := if l.isEmpty then "-" else ",".intercalate l
+
+/-- one token per field, parsed back by the harness and by `parseSummary?` -/
+def showSummary (s : Summary Nat) : String :=
+  " ".intercalate [
+    "params=" ++ showNatList s.params,
+    "ctor=" ++ commaOr (s.ctor.map showPStatus),
+    "raise=" ++ showBool s.mayRaise,
+    "varargs=" ++ showBool s.varargs,
+    "fresh=" ++ showBool s.freshUnfitted,
+    "get=" ++ showImplNat s.getImpl,
+    "set=" ++ showImplNat s.setImpl,
+    "guards=" ++ commaOr (s.guards.map showGStatus),
+    "fitw=" ++ showNatList s.fitWrites,
+    "fitu=" ++ showBool s.fitUnknown,
+    "fitset=" ++ showBool s.fitSetsFitted,
+    "fitabs=" ++ showBool s.fitAbstract,
+    "hooks=" ++ showBool s.hooks ]
+
+def parsePStatus? : String → Option PStatus
+  | "S" => some .stored | "M" => some .missing | "U" => some .unknown | _ => none
+def parseGStatus? : String → Option GStatus
+  | "A" => some .absent | "G" => some .guarded | "U" => some .unguarded | _ => none
+def parseImplNat? (s : String) : Option (Impl Nat) :=
+  match s.splitOn "/" with
+  | ["p"] => some .plain
+  | ["x"] => some .abstr
+  | ["c"] => some .custom
+  | ["m", a, b] => do
+      let a ← parseNat? a; let b ← parseNat? b
+      pure (.viaMeta a b)
+  | _ => none
+def parseListWith? {α} (f : String → Option α) (s : String) : Option (List α) :=
+  if s == "-" then some [] else (s.splitOn ",").mapM f
+
+def field? (name : String) (tok : String) : Option String :=
+  if tok.startsWith (name ++ "=") then some ((tok.drop (name.length + 1)).toString) else none
+
+def parseSummary? (toks : List String) : Option (Summary Nat) :=
+  match toks with
+  | [p, c, r, va, fr, g, st, gu, fw, fu, fs, fa, h] => do
+    let params ← (field? "params" p).bind parseNatList?
+    let ctor ← (field? "ctor" c).bind (parseListWith? parsePStatus?)
+    let mayRaise ← (field? "raise" r).bind parseBool?
+    let varargs ← (field? "varargs" va).bind parseBool?
+    let fresh ← (field? "fresh" fr).bind parseBool?
+    let getImpl ← (field? "get" g).bind parseImplNat?
+    let setImpl ← (field? "set" st).bind parseImplNat?
+    let guards ← (field? "guards" gu).bind (parseListWith? parseGStatus?)
+    let fitWrites ← (field? "fitw" fw).bind parseNatList?
+    let fitUnknown ← (field? "fitu" fu).bind parseBool?
+    let fitSets ← (field? "fitset" fs).bind parseBool?
+    let fitAbs ← (field? "fitabs" fa).bind parseBool?
+    let hooks ← (field? "hooks" h).bind parseBool?
+    pure { params := params, ctor := ctor, mayRaise := mayRaise, varargs := varargs, freshUnfitted := fresh,
+           getImpl := getImpl, setImpl := setImpl, guards := guards, fitWrites := fitWrites,
+           fitUnknown := fitUnknown, fitSetsFitted := fitSets, fitAbstract := fitAbs, hooks := hooks }
+  | _ => none
+
+/-- What the kernel-checked summary PREDICTS about the running class.  `?` = no prediction.
+ctor: per parameter `S` (stored under its own name unchanged) | `M` (never stored) | `?`;
+guards: per apply-type method `NF` (raises NotFittedError when unfitted) | `-` (no such method) | `?`;
+fit: per parameter `K` (kept by fit) | `?`. -/
+def predict (s : Summary Nat) : String :=
+  let clean := !s.hooks
+  let ctor := s.ctor.map fun st =>
+    match st with
+    | .stored => if clean && !s.mayRaise then "S" else "?"
+    | .missing => if clean then "M" else "?"
+    | .unknown => "?"
+  let guards := s.guards.map fun g =>
+    match g with
+    | .absent => "-"
+    | .guarded => if s.fitAbstract then "?" else "NF"
+    | .unguarded => "?"
+  let fit := s.params.map fun p =>
+    if s.fitUnknown || s.fitAbstract || s.fitWrites.contains p || !clean then "?" else "K"
+  " ".intercalate [
+    "ctor=" ++ commaOr ctor,
+    "fresh=" ++ (if s.freshUnfitted && clean then "F" else "?"),
+    "get=" ++ showImplNat s.getImpl,
+    "guards=" ++ commaOr guards,
+    "fit=" ++ commaOr fit ]
+
+/-! ## trees -/
+
+abbrev V := Val String
+abbrev P := PList String
+
+def isIdent (c : Char) : Bool := c.isAlphanum || c == '_' || c == '.' || c == '@'
+
+def takeIdent (cs : List Char) : String × List Char :=
+  (String.ofList (cs.takeWhile isIdent), cs.dropWhile isIdent)
+
+def parseImplS? (s : String) : Option (Impl String) :=
+  match s.splitOn "/" with
+  | ["p"] => some .plain
+  | ["x"] => some .abstr
+  | ["c"] => some .custom
+  | ["m", a, b] => some (.viaMeta a b)
+  | _ => none
+
+def showImplS : Impl String → String
+  | .plain => "p" | .viaMeta a s => s!"m/{a}/{s}" | .abstr => "x" | .custom => "c"
+
+mutual
+/-- parse one value; fuel = remaining characters -/
+def parseVal : Nat → List Char → Option (V × List Char)
+  | 0, _ => none
+  | fuel + 1, cs =>
+    match cs with
+    | 'a' :: rest =>
+      let (d, rest') := takeIdent rest
+      d.toNat?.map fun n => (Val.atom n, rest')
+    | 'n' :: '[' :: rest =>
+      match parseItems fuel rest ']' with
+      | some (items, rest') => some (Val.named items, rest')
+      | none => none
+    | 'e' :: rest =>
+      let (d, r1) := takeIdent rest
+      match d.toNat?, r1 with
+      | some id, ':' :: r2 =>
+        let (cls, r3) := takeIdent r2
+        match r3 with
+        | ':' :: r4 =>
+          let implS := String.ofList (r4.takeWhile (fun c => c != ':'))
+          let r5 := r4.dropWhile (fun c => c != ':')
+          match parseImplS? implS, r5 with
+          | some impl, ':' :: f :: '(' :: r6 =>
+            match (if f == 'T' then some true else if f == 'F' then some false else none), parseItems fuel r6 ')' with
+            | some fitted, some (ps, r7) => some (Val.est id cls impl fitted ps, r7)
+            | _, _ => none
+          | _, _ => none
+        | _ => none
+      | _, _ => none
+    | _ => none
+/-- `k=v,k=v…` up to the closing character -/
+def parseItems : Nat → List Char → Char → Option (P × List Char)
+  | 0, _, _ => none
+  | fuel + 1, cs, close =>
+    match cs with
+    | c :: rest =>
+      if c == close then some (PList.nil, rest)
+      else
+        let cs' := if c == ',' then rest else cs
+        let (k, r1) := takeIdent cs'
+        match r1 with
+        | '=' :: r2 =>
+          match parseVal fuel r2 with
+          | some (v, r3) =>
+            match parseItems fuel r3 close with
+            | some (tl, r4) => some (PList.cons k v tl, r4)
+            | none => none
+          | none => none
+        | _ => none
+    | [] => none
+end
+
+def parseTree? (s : String) : Option V :=
+  match parseVal (s.length + 1) s.toList with
+  | some (v, []) => some v
+  | _ => none
+
+mutual
+def showVal : V → String
+  | .atom i => s!"a{i}"
+  | .est i c impl f ps => s!"e{i}:{c}:{showImplS impl}:{showBool f}(" ++ showItems ps ++ ")"
+  | .named items => "n[" ++ showItems items ++ "]"
+def showItems : P → String
+  | .nil => ""
+  | .cons k v .nil => k ++ "=" ++ showVal v
+  | .cons k v tl => k ++ "=" ++ showVal v ++ "," ++ showItems tl
+end
+
+/-- how a value appears inside a `get_params` result: by identity -/
+def showRefItems : P → List String
+  | .nil => []
+  | .cons k (.atom i) tl => s!"{k}:a{i}" :: showRefItems tl
+  | .cons k (.est i _ _ _ _) tl => s!"{k}:e{i}" :: showRefItems tl
+  | .cons k (.named _) tl => s!"{k}:n" :: showRefItems tl
+
+def showRef : V → String
+  | .atom i => s!"a{i}"
+  | .est i _ _ _ _ => s!"e{i}"
+  | .named items => "n[" ++ ",".intercalate (showRefItems items) ++ "]"
+
+def keyOf (p : Path String) : String := "__".intercalate p
+
+def insertSorted (x : String × String) : List (String × String) → List (String × String)
+  | [] => [x]
+  | y :: ys => if x.1 < y.1 then x :: y :: ys else if x.1 == y.1 then x :: ys else y :: insertSorted x ys
+
+/-- a dict: later entries win, printed sorted by key -/
+def showDict (l : List (Path String × V)) : String :=
+  let entries := l.foldl (fun acc kv => insertSorted (keyOf kv.1, showRef kv.2) acc) []
+  commaOr (entries.map fun kv => kv.1 ++ "=" ++ kv.2)
+
+def showErr : Err → String
+  | .value => "E:value" | .attr => "E:attr" | .type => "E:type" | .notFitted => "E:notfitted"
+
+def splitKey (k : String) : Path String := k.splitOn "__"
+
+/-- `k=V|k=V` -/
+def parseKvs? (s : String) : Option (List (Path String × V)) :=
+  if s == "-" then some [] else
+  (s.splitOn "|").mapM fun kv =>
+    match kv.splitOn "=" with
+    | k :: rest =>
+      if rest.isEmpty then none
+      else (parseTree? ("=".intercalate rest)).map fun v => (splitKey k, v)
+    | [] => none
+
+def setFuel : Nat := 64
+
+def hasDunder (s : String) : Bool := (s.splitOn "__").length > 1
+
+/-- run one op; returns (new tree, printed result) -/
+def runOp (t : V) (op : String) : Option (V × String) :=
+  match op.splitOn ":" with
+  | ["get", d] => (parseBool? d).map fun deep => (t, showDict (getVal deep t))
+  | "set" :: rest =>
+    (parseKvs? (":".intercalate rest)).map fun kvs =>
+      match setVal setFuel t kvs with
+      | .ok t' => (t', "ok " ++ showVal t')
+      | .error e => (t, showErr e)
+  | ["clone"] => some (cloneVal t, showVal (cloneVal t))
+  | ["fit"] => some (fitVal t, showVal (fitVal t))
+  | ["fitted"] => some (t, showBool t.isFitted)
+  | ["apply"] =>
+    some (t, match applyGuarded t with
+      | .ok _ => "ok"
+      | .error e => showErr e)
+  | ["checknames", ns] =>
+    match t with
+    | .est _ _ _ _ ps =>
+      let names := if ns == "-" then [] else ns.splitOn ","
+      some (t, match checkNames hasDunder names ps.keys with
+        | .ok _ => "ok"
+        | .error e => showErr e)
+    | _ => none
+  | _ => none
+
+def runSeq (t : V) : List String → Option (List String)
+  | [] => some []
+  | op :: ops =>
+    match runOp t op with
+    | none => none
+    | some (t', out) => (runSeq t' ops).map (out :: ·)
+
+def handle (toks : List String) : String :=
+  match toks with
+  | "table" :: _cid :: rest =>
+    match parseSummary? rest with
+    | some s => predict s
+    | none => "bad-op"
+  | "seq" :: tree :: ops =>
+    match parseTree? tree with
+    | none => "bad-op"
+    | some t =>
+      match runSeq t ops with
+      | some outs => " ; ".intercalate outs
+      | none => "bad-op"
+  | _ => "bad-op"
+
 end SkVerif.Drv.C04
